@@ -43,6 +43,14 @@ fn main() {
         None => 2,
       }
     }
+    Some("fidelity") => {
+      let n = args.get(2).and_then(|s| s.parse().ok()).unwrap_or(20000);
+      if props::pipes::fidelity(n, framework::master_seed()) == 0 {
+        0
+      } else {
+        1
+      }
+    }
     Some("list") => {
       for c in &checks {
         println!("{}", c.id);
